@@ -62,6 +62,9 @@ class EnipWorld(object):
         if policy == 'pct':
             d = sch.between(0, 3, 'pctd')
             self.sched.pct_changes = set(sch.between(1, 400, 'pctk') for _ in range(d))
+        if preempt:
+            # a thread releasing a shared lock is sometimes held back right after the release
+            self.sched.unlock_hold = (1, 6)
         if preempt or count_calls:
             fns = traced_functions(self.m)
             focus = 'all'
@@ -69,6 +72,8 @@ class EnipWorld(object):
                 # where the pre-emption budget goes: everywhere, the request-execution core, or one
                 # single function (so that rare windows are entered on purpose, buggify-style)
                 focus = sch.weighted([(2, 'all'), (2, 'core'), (4, 'one')], 'focus')
+                if params.get('focus_fn'):
+                    focus = 'one'
             core = ('__getitem__', '__setitem__', 'produce', '_validate_key', 'request', 'reply_elements',
                     '__exit__', 'post_process_closure', '__enter__', 'terminate', 'closure')
             if focus == 'core':
@@ -149,8 +154,12 @@ class EnipWorld(object):
                 if addr_pool and g.chance(1, 2, 'reuseinst'):
                     c, i = g.choice(addr_pool, 'inst')
                 else:
-                    c = g.choice([0x93, 0x401, 0x64, 0xFFF0], 'cls')
+                    # user classes, and further instances of the Message Router's own class (2): requests
+                    # to those must be routed by instance, not be taken by the router @2/1 itself
+                    c = g.choice([0x93, 0x401, 0x64, 0xFFF0, 2], 'cls')
                     i = g.choice([1, 2, 3, 300], 'ins')
+                    if c == 2 and i == 1:
+                        i = 2
                     addr_pool.append((c, i))
                 a = g.choice([1, 2, 3, 4, 5, 300], 'att')
                 addr = (c, i, a)
@@ -288,7 +297,7 @@ class EnipWorld(object):
         self.sched.log('VIOLATION', cls)
         return v
 
-    def spawn(self, fn, name):
+    def spawn(self, fn, name, trace=False):
         def guarded():
             try:
                 fn()
@@ -297,7 +306,7 @@ class EnipWorld(object):
             except Exception:
                 import traceback
                 self.harness_errors.append('%s: %s' % (name, traceback.format_exc()[-2500:]))
-        th = self.sched.spawn(guarded, name=name)
+        th = self.sched.spawn(guarded, name=name, trace=trace)
         self.threads.append(th)
         return th
 
@@ -308,7 +317,12 @@ class EnipWorld(object):
         s.stop_when = stop_when
         s.run(wall_timeout=110)
         if not s.finished.is_set():
-            self.violations.append(dict(cls='harness-wall', msg='wall timeout', key={}))
+            try:
+                where = repr([(t['name'], t['state'], t.get('wait'), (t.get('stack') or [])[-6:]) for t in s.describe_threads()
+                              if t['state'] != 'done'])[:3000]
+            except Exception as exc:        # noqa: BLE001
+                where = 'no stacks: %r' % (exc,)
+            self.violations.append(dict(cls='harness-wall', msg='wall timeout; threads: ' + where, key={}))
         if s.failure:
             kind, detail = s.failure
             self.violation('liveness-' + kind.lower(), '%s: %s' % (kind, detail))
